@@ -24,14 +24,14 @@ AUX = ["bioconsert", "borda", "kwik"]
 
 
 def budget(tier):
-    return 260 if tier == "quick" else 5000
+    return 700 if tier == "quick" else 6000
 
 
 def gen(rng, index, tier):
     nmax = 6 if tier == "quick" else 7
     fam = rng.choice(["sparse", "cyclic", "cyclic", "cyclic", "blocky", "near", "uniform", "dup"])
     raw, meta = lib.gen_dataset(rng, nmax=nmax, mmax=5, family=fam, nmin=2)
-    case = {"dataset": raw, "scheme": partcommon.sparse_scheme(rng), "meta": meta,
+    case = {"dataset": raw, "scheme": partcommon.sparse_scheme(rng, meta["family"]), "meta": meta,
             "bound": rng.choice([0, 2, 2, 80, 80]), "aux": rng.choice(AUX)}
     if rng.random() < 0.4:
         case["cplex"] = "standin"
